@@ -97,6 +97,42 @@ pub fn c17_bit_writer_byte_stuffing() {
 
 // @prop C17
 // @tier quick
+// @unit jxl_jbr::bit_writer::BitWriter::{write_huffman,write_raw,flush_buf,emit_byte,finalize} - 0xFF bytes inside a completed 64-bit word
+// @sym as c17_bit_writer_msb_first_across_flush (13 + 11 + 40 + 3 + 5 bits, all bit values symbolic) without the assumption that the first eight bytes are free of 0xFF
+// @bound write lengths concrete, 72 bits; every placement of 0xFF bytes in the flushed word and in the carried-over byte
+// @assume stubs: Vec::push / extend_from_slice write in place and assert a reserved capacity of 64 bytes suffices; BitWriter::new reserves it
+// @oblig the bytes produced are the MSB-first concatenation with 0x00 stuffed after every 0xFF byte, whichever word (the flushed one or the carried-over one) holds it
+#[kani::proof]
+#[kani::unwind(20)]
+#[kani::stub(std::vec::Vec::push, jbr_push_stub)]
+#[kani::stub(std::vec::Vec::extend_from_slice, jbr_extend_stub)]
+#[kani::stub(jxl_jbr::verif::BitWriter::new, jbr_bit_writer_new)]
+pub fn c17_bit_writer_stuffing_across_flush() {
+    let mut w = jv::BitWriter::new();
+    let c1: u64 = kani::any::<u64>() >> 51 << 51; // 13 bits, left-aligned
+    let v2: u64 = kani::any::<u64>() & 0x7ff;
+    let v3: u64 = kani::any::<u64>() & ((1 << 40) - 1);
+    let v4: u64 = kani::any::<u64>() & 7;
+    let acc: u128 = ((c1 >> 51) as u128) << 115 | (v2 as u128) << 104 | (v3 as u128) << 64 | (v4 as u128) << 61 | 0x1f << 56;
+    w.write_huffman(c1, 13);
+    w.write_raw(v2, 11);
+    w.write_raw(v3, 40);
+    w.write_raw(v4, 3);
+    w.write_raw(0x1f, 5);
+    let out = w.finalize();
+    let mut want = [0u8; 34];
+    let wn = spec_pack(acc, 72, &mut want);
+    assert!(out.len() == wn);
+    let i: usize = kani::any();
+    kani::assume(i < wn);
+    assert!(out[i] == want[i]);
+    kani::cover!(wn == 10 && want[8] != 0xff && want[9] != 0, "one 0xFF in the flushed word, none carried over");
+    kani::cover!(wn == 18, "nine 0xFF bytes");
+    core::mem::forget(out);
+}
+
+// @prop C17
+// @tier quick
 // @unit jxl_jbr::huffman::{HuffmanCode::build,BuiltHuffmanTable::lookup}
 // @sym a table with 2 codes of length 2, 1 code of length 3 and the sentinel of length 4 (counts fixed), the three symbol values and the looked-up symbol symbolic
 // @bound one table shape (4 entries incl. sentinel); values any distinct bytes
